@@ -54,4 +54,80 @@ theorem guessFrom_complete (P : Prims) (d : Bytes) (fuel i j : Nat) (h1 : i ≤ 
         intro e; subst e; simp [h4] at hne
       exact ih (i + 1) (by omega) (by omega)
 
+theorem paddedLen16_bounds (l : Nat) :
+    l ≤ paddedLen16 l ∧ paddedLen16 l < l + 16 ∧ paddedLen16 l % 16 = 0 := by
+  unfold paddedLen16 Facts.C11.paddedLen16
+  have h : Int.tdiv (l : Int) 16 = (l : Int) / 16 := Int.tdiv_eq_ediv_of_nonneg (by omega)
+  rw [h]
+  simp only [decide_eq_true_eq]
+  split <;> omega
+
+/-- Genuine answers: `DecryptExchangeAnswer (EncryptExchangeAnswer answer)` succeeds with data `x` that
+starts with `answer`, is at most 15 bytes longer and has the same SHA-1. -/
+theorem decrypt_encrypt_answer' (P : Prims) (hP : LawfulPrims P) (rnd answer key iv c : Bytes) (isNil : Bool)
+    (hk : key.length = 32) (hiv : iv.length = 32)
+    (he : encryptAnswer P rnd answer key iv = .ok c) :
+    ∃ x k, decryptAnswerWith Facts.C11.guessResultVar P c key iv isNil = .ok (some x) ∧
+      x = answer ++ (rnd.take k) ∧ k < 16 ∧ P.sha1 x = P.sha1 answer := by
+  unfold encryptAnswer dataWithHash at he
+  have hk' : ¬ key.length ≠ 32 := by simp [hk]
+  simp only [hk', if_false] at he
+  have hb := paddedLen16_bounds (answer.length + sha1Size)
+  generalize hn : paddedLen16 (answer.length + sha1Size) - (sha1Size + answer.length) = n at he
+  have hn16 : n < 16 := by omega
+  split at he
+  · cases he
+  · rename_i awh hawh
+    split at hawh
+    · cases hawh
+    · rename_i hrnd
+      simp only [Except.ok.injEq] at hawh he
+      have hpad : (rnd.take n).length = n := by simp; omega
+      have hs1 : (P.sha1 answer).length = 20 := hP.sha1_len _
+      have hlen : awh.length = 20 + answer.length + n := by
+        rw [← hawh]; simp [hs1, hpad]; omega
+      have hal : awh.length % 16 = 0 := by simp only [sha1Size] at hb hn; omega
+      have hcl := Ige.enc_length (P.aesEnc key) (hP.aesEnc_len key) iv awh hiv hal
+      have hdec := Ige.dec_enc _ _ (Ige.Inv.ofPrims P hP key) iv awh hiv hal
+      subst he
+      unfold decryptAnswerWith
+      have hal' : ¬ (Ige.enc (P.aesEnc key) iv awh).length % 16 ≠ 0 := by rw [hcl]; simp [hal]
+      have hv : (Facts.C11.guessResultVar == Facts.C11.guessResultVar) = true := by decide
+      simp only [hk', hal', if_false, hdec, hv, if_true]
+      -- the search on awh
+      have htake : awh.take sha1Size = P.sha1 answer := by
+        rw [← hawh, List.append_assoc]; exact List.take_left' hs1
+      have hslice : ∀ j, j ≤ n → slice awh sha1Size (awh.length - j) = answer ++ rnd.take (n - j) := by
+        intro j hj
+        unfold slice
+        rw [← hawh]
+        have e1 : (P.sha1 answer ++ answer ++ rnd.take n).length - j = 20 + (answer.length + (n - j)) := by
+          rw [hawh, hlen]; omega
+        rw [e1, List.append_assoc, List.take_append, hs1]
+        have e2 : 20 + (answer.length + (n - j)) - 20 = answer.length + (n - j) := by omega
+        rw [e2, List.take_of_length_le (by omega : (P.sha1 answer).length ≤ 20 + (answer.length + (n - j)))]
+        simp only [sha1Size]
+        rw [List.drop_left' hs1, List.take_append]
+        rw [List.take_of_length_le (by omega : answer.length ≤ answer.length + (n - j))]
+        have e3 : answer.length + (n - j) - answer.length = n - j := by omega
+        rw [e3, List.take_take]
+        congr 2
+        omega
+      have hmatch : P.sha1 (slice awh sha1Size (awh.length - n)) = awh.take sha1Size := by
+        rw [hslice n (Nat.le_refl _), htake]; simp
+      have hgt : ¬ awh.length ≤ sha1Size := by simp only [sha1Size]; omega
+      obtain ⟨x, hx⟩ := guessFrom_complete P awh 16 0 n (Nat.zero_le _) (by omega)
+        (by simp only [sha1Size]; omega) hmatch
+      obtain ⟨j, _, _, _, hj4, hj5, hj6⟩ := guessFrom_some P awh x 16 0 hx
+      have hjn : j ≤ n := by
+        rcases Nat.lt_or_ge n j with h | h
+        · exact absurd hmatch (hj6 n (Nat.zero_le _) h)
+        · exact h
+      refine ⟨x, n - j, ?_, ?_, by omega, ?_⟩
+      · unfold guess
+        rw [show Facts.C11.guessTries = 16 from rfl]
+        simp [hgt, hx]
+      · rw [hj4, hslice j hjn]
+      · rw [hj5, htake]
+
 end TdModel.C11
